@@ -177,6 +177,13 @@ def run(c):
         inputs = dict(a=[[None if math.isnan(x) else float(x) for x in v] for v in av],
                       b=[[None if math.isnan(x) else float(x) for x in v] for v in bv], n_cond=nc_eff,
                       sigma=None if sig is None else sig.tolist())
+        # an earlier comparison in the same process with the same conditions and sigma_k, and the same number of missing
+        # entries at other positions, must not influence this one (seeded changes C13-m5 / C13-m8: memoised reduced V)
+        if np.isnan(av).any() and np.array_equal(np.isnan(av[0]), np.isnan(bv[0])):
+            try:
+                compare(np.roll(av, 1, axis=1), np.roll(bv, 1, axis=1), method=c['method'], sigma_k=sig)
+            except Exception:
+                pass
         try:
             sim = compare(a, b, method=c['method'], sigma_k=sig)
         except ValueError as e:
@@ -190,7 +197,14 @@ def run(c):
             res = r.mean('wt')
         else:
             r = RDMs(v)
-            res = r.mean(None if wk == 'none' else np.array(c['w'], float))
+            W = None if wk == 'none' else np.array(c['w'], float)
+            if wk == 'array':
+                # the caller's weight array was used before, for a stack that lacks other entries (seeded change C13-m7)
+                other = np.where(np.isnan(v), 1.0, v)
+                other[:, ::2] = np.where(np.isnan(v[:, ::2]), 1.0, np.nan)
+                other[0, :] = 1.0
+                RDMs(other).mean(W)
+            res = r.mean(W)
         return dict(mean=[None if math.isnan(x) else float(x) for x in res.dissimilarities[0]], n_rdm=res.n_rdm)
     v = arr(c['vs8'])
     r = RDMs(v)
